@@ -1,15 +1,405 @@
 package main
 
+// Correspondence output for C19: cases_C19_*.v evaluated by coqc against model/Redact.v (see model/RedactCorr.v).
+//
+// A context case is taken from ONE run of a real session at an observation point.  The model's inputs are read
+// from the session state (not from the context): channels, contact id / name / URN list with channel affinity,
+// the input's URN, the contacts and flow names of the parent and child summaries, the base environment.  What
+// gocommon derives from a URN path (printed URN, Format(), tel country) is computed here with gocommon and passed
+// in.  Subtrees the model carries as given are replaced by digests of what was observed there (twice: in the
+// model's input and in the expected tree), so what is compared is: keys and shape at every transcribed builder,
+// every URN-derived leaf, the contact's and runs' default renderings, channel and preferred URN resolution, and
+// the equality of the contact subtrees shown under @contact and @run.contact.
+
 import (
+	"crypto/sha1"
+	"encoding/hex"
+	"encoding/json"
+	"fmt"
+	"sort"
+	"strings"
+
+	"github.com/nyaruka/gocommon/i18n"
+	"github.com/nyaruka/gocommon/urns"
+	"github.com/nyaruka/goflow/flows"
+
 	"verifharness/pkg/hx"
 )
 
+// ---- snapshot of the model's inputs, taken at observation time ------------------------------------
+
+type mURN struct {
+	Scheme, Path, Display, Affinity, Country, Plain, Fmt string
+}
+
+type mContact struct {
+	ID   int64
+	Name string
+	URNs []mURN
+}
+
+type relSnap struct {
+	Contact  *mContact
+	FlowName *string
+}
+
+type runSnap struct {
+	Contact     *mContact
+	FlowName    *string
+	InputURN    *mURN
+	Parent      *relSnap
+	Child       *relSnap
+	Country     string // merged environment
+	BaseCountry string
+	Redact      bool
+	Tree        *node // RootContext under the merged environment
+}
+
+func snapURN(u urns.URN, ch *flows.Channel) mURN {
+	scheme, path, _, display := u.ToParts()
+	plain, _ := urns.NewFromParts(scheme, path, nil, display)
+	m := mURN{Scheme: scheme, Path: path, Display: display, Plain: string(plain), Fmt: u.Format()}
+	if ch != nil {
+		m.Affinity = string(ch.UUID())
+	}
+	if scheme == urns.Phone.Prefix {
+		m.Country = string(i18n.DeriveCountryFromTel(path))
+	}
+	return m
+}
+
+func snapContact(c *flows.Contact) *mContact {
+	if c == nil {
+		return nil
+	}
+	m := &mContact{ID: int64(c.ID()), Name: c.Name()}
+	for _, u := range c.URNs() {
+		m.URNs = append(m.URNs, snapURN(u.URN(), u.Channel()))
+	}
+	return m
+}
+
+func snapRelated(r flows.RunSummary) *relSnap {
+	if r == nil {
+		return nil
+	}
+	s := &relSnap{Contact: snapContact(r.Contact())}
+	if r.Flow() != nil {
+		n := r.Flow().Name()
+		s.FlowName = &n
+	}
+	return s
+}
+
+func snapRun(session flows.Session, r flows.Run, redact bool, tree *node) *runSnap {
+	s := &runSnap{Contact: snapContact(r.Contact()), Redact: redact, Tree: tree,
+		Country: string(session.MergedEnvironment().DefaultCountry()), BaseCountry: string(session.Environment().DefaultCountry())}
+	if r.Flow() != nil {
+		n := r.Flow().Name()
+		s.FlowName = &n
+	}
+	if in := session.Input(); in != nil {
+		// the input's URN is not exported: read it from the input's own JSON form
+		if b, err := json.Marshal(in); err == nil {
+			var e struct {
+				URN string `json:"urn"`
+			}
+			if json.Unmarshal(b, &e) == nil {
+				u := snapURN(urns.URN(e.URN), nil)
+				s.InputURN = &u
+			}
+		}
+	}
+	if p := r.Parent(); p != nil && !isNilSummary(p) {
+		s.Parent = snapRelated(p)
+	}
+	if ch := session.GetCurrentChild(r); ch != nil {
+		s.Child = snapRelated(ch)
+	}
+	return s
+}
+
+func isNilSummary(r flows.RunSummary) bool {
+	defer func() { recover() }()
+	return fmt.Sprintf("%v", r) == "<nil>"
+}
+
+// ---- Coq printing ---------------------------------------------------------------------------------
+
+func coqStr(s string) string {
+	plainASCII := true
+	for i := 0; i < len(s); i++ {
+		if s[i] < 32 || s[i] > 126 {
+			plainASCII = false
+			break
+		}
+	}
+	if plainASCII {
+		return "\"" + strings.ReplaceAll(s, "\"", "\"\"") + "\""
+	}
+	parts := make([]string, len(s))
+	for i := 0; i < len(s); i++ {
+		parts[i] = fmt.Sprint(int(s[i]))
+	}
+	return "(bs [" + strings.Join(parts, ";") + "])"
+}
+
+func coqStrs(xs []string) string { return hx.List(xs, coqStr) }
+
+func coqOptStr(s *string) string {
+	if s == nil {
+		return "None"
+	}
+	return "(Some " + coqStr(*s) + ")"
+}
+
+func (u mURN) coq() string {
+	return fmt.Sprintf("{| u_scheme := %s; u_path := %s; u_display := %s; u_affinity := %s; u_country := %s; u_plain := %s; u_fmt := %s |}",
+		coqStr(u.Scheme), coqStr(u.Path), coqStr(u.Display), coqStr(u.Affinity), coqStr(u.Country), coqStr(u.Plain), coqStr(u.Fmt))
+}
+
+func digest(n *node) string {
+	h := sha1.New()
+	var rec func(n *node)
+	rec = func(n *node) {
+		if n == nil {
+			h.Write([]byte("<absent>"))
+			return
+		}
+		fmt.Fprintf(h, "(%s|%q|", n.Kind, n.Render)
+		if n.Def != nil {
+			h.Write([]byte("def:"))
+			rec(n.Def)
+		}
+		for i, k := range n.Kids {
+			if i < len(n.Keys) {
+				fmt.Fprintf(h, "%q=", n.Keys[i])
+			}
+			rec(k)
+		}
+		h.Write([]byte(")"))
+	}
+	rec(n)
+	return hex.EncodeToString(h.Sum(nil))[:16]
+}
+
+func opq(n *node) string { return "(opq \"" + digest(n) + "\")" }
+
+// structural conversion of an observed tree
+func xvGeneric(n *node) string {
+	if n == nil {
+		return "XNil"
+	}
+	switch n.Kind {
+	case "nil":
+		return "XNil"
+	case "array":
+		return "(XArr " + hx.List(n.Kids, xvGeneric) + ")"
+	case "object":
+		return xvObject(n, nil, nil)
+	default:
+		return "(XLeaf " + coqStr(n.Kind) + " " + coqStr(n.Render) + ")"
+	}
+}
+
+// object with some keys replaced by digests and some handled by special printers
+func xvObject(n *node, opaque map[string]bool, special map[string]func(*node) string) string {
+	def := "None"
+	if n.Def != nil {
+		if opaque["__default__"] {
+			def = "(Some " + opq(n.Def) + ")"
+		} else {
+			def = "(Some " + xvGeneric(n.Def) + ")"
+		}
+	}
+	props := make([]string, len(n.Keys))
+	for i, k := range n.Keys {
+		var v string
+		switch {
+		case opaque[k]:
+			v = opq(n.Kids[i])
+		case special[k] != nil:
+			v = special[k](n.Kids[i])
+		default:
+			v = xvGeneric(n.Kids[i])
+		}
+		props[i] = "(" + coqStr(k) + ", " + v + ")"
+	}
+	return "(XObj " + def + " [" + strings.Join(props, "; ") + "])"
+}
+
+func set(keys ...string) map[string]bool {
+	m := map[string]bool{}
+	for _, k := range keys {
+		m[k] = true
+	}
+	return m
+}
+
+var (
+	opaqueContact = set("created_on", "fields", "first_name", "groups", "language", "last_seen_on", "status", "tickets", "timezone", "uuid")
+	opaqueInput   = set("__default__", "attachments", "channel", "created_on", "external_id", "text", "type", "uuid")
+	opaqueRelated = set("fields", "flow", "results", "run", "status", "uuid")
+	opaqueRun     = set("created_on", "exited_on", "flow", "path", "results", "status", "uuid")
+	opaqueRoot    = set("fields", "globals", "legacy_extra", "node", "results", "resume", "ticket", "trigger", "webhook")
+)
+
+func xvIfObject(n *node, f func(*node) string) string {
+	if n == nil || n.Kind != "object" {
+		return xvGeneric(n)
+	}
+	return f(n)
+}
+
+func xvContact(n *node) string {
+	return xvIfObject(n, func(n *node) string { return xvObject(n, opaqueContact, nil) })
+}
+func xvInput(n *node) string {
+	return xvIfObject(n, func(n *node) string { return xvObject(n, opaqueInput, nil) })
+}
+func xvRelated(n *node) string {
+	return xvIfObject(n, func(n *node) string {
+		return xvObject(n, opaqueRelated, map[string]func(*node) string{"contact": xvContact})
+	})
+}
+func xvRunObj(n *node) string {
+	return xvIfObject(n, func(n *node) string {
+		return xvObject(n, opaqueRun, map[string]func(*node) string{"contact": xvContact})
+	})
+}
+func xvRoot(n *node) string {
+	return xvObject(n, opaqueRoot, map[string]func(*node) string{
+		"contact": xvContact, "input": xvInput, "parent": xvRelated, "child": xvRelated, "run": xvRunObj})
+}
+
+func (c *mContact) coq(ctx *node) string {
+	us := hx.List(c.URNs, func(u mURN) string { return u.coq() })
+	f := func(k string) string { return opq(ctx.get(k)) }
+	return fmt.Sprintf("{| c_id := %s; c_name := %s; c_urns := %s; c_created_on := %s; c_fields := %s; c_first_name := %s; c_groups := %s; "+
+		"c_language := %s; c_last_seen_on := %s; c_status := %s; c_tickets := %s; c_timezone := %s; c_uuid := %s |}",
+		hx.Z(c.ID), coqStr(c.Name), us, f("created_on"), f("fields"), f("first_name"), f("groups"), f("language"), f("last_seen_on"),
+		f("status"), f("tickets"), f("timezone"), f("uuid"))
+}
+
+func optContact(c *mContact, ctx *node) string {
+	if c == nil {
+		return "None"
+	}
+	if ctx == nil || ctx.Kind != "object" {
+		ctx = &node{Kind: "object"}
+	}
+	return "(Some " + c.coq(ctx) + ")"
+}
+
+func (r *relSnap) coq(ctx *node) string {
+	if r == nil {
+		return "None"
+	}
+	if ctx == nil || ctx.Kind != "object" {
+		ctx = &node{Kind: "object"}
+	}
+	f := func(k string) string { return opq(ctx.get(k)) }
+	return fmt.Sprintf("(Some {| r_contact := %s; r_flow_name := %s; r_fields := %s; r_flow := %s; r_results := %s; r_run := %s; r_status := %s; r_uuid := %s |})",
+		optContact(r.Contact, ctx.get("contact")), coqOptStr(r.FlowName), f("fields"), f("flow"), f("results"), f("run"), f("status"), f("uuid"))
+}
+
+func (c *chanDef) coq() string {
+	return fmt.Sprintf("{| ch_uuid := %s; ch_name := %s; ch_address := %s; ch_schemes := %s; ch_roles := %s; ch_country := %s; ch_prefixes := %s; ch_intl := %s |}",
+		coqStr(c.UUID), coqStr(c.Name), coqStr(c.Address), coqStrs(c.Schemes), coqStrs(c.Roles), coqStr(c.Country), coqStrs(c.Prefixes), hx.Bool(c.Intl))
+}
+
+func allSchemes() []string {
+	var out []string
+	for _, s := range urns.Schemes {
+		out = append(out, s.Prefix)
+	}
+	sort.Strings(out)
+	return out
+}
+
+func coqEnv(redact bool, country string) string {
+	return fmt.Sprintf("{| redact := %s; env_country := %s; all_schemes := schemes |}", hx.Bool(redact), coqStr(country))
+}
+
+func (s *runSnap) coq(variant int) string {
+	t := s.Tree
+	f := func(path ...string) string { return opq(t.get(path...)) }
+	input := "None"
+	if in := t.get("input"); s.InputURN != nil && in != nil && in.Kind == "object" {
+		g := func(k string) string { return opq(in.get(k)) }
+		def := opq(in.Def)
+		input = fmt.Sprintf("(Some {| i_urn := Some %s; i_default := %s; i_attachments := %s; i_channel := %s; i_created_on := %s; i_external_id := %s; i_text := %s; i_type := %s; i_uuid := %s |})",
+			s.InputURN.coq(), def, g("attachments"), g("channel"), g("created_on"), g("external_id"), g("text"), g("type"), g("uuid"))
+	}
+	sess := fmt.Sprintf("{| s_channels := chans%d; s_contact := %s; s_flow_name := %s; s_input := %s; s_parent := %s; s_child := %s;\n"+
+		"   s_run_created_on := %s; s_run_exited_on := %s; s_run_flow := %s; s_run_path := %s; s_run_results := %s; s_run_status := %s; s_run_uuid := %s;\n"+
+		"   s_fields := %s; s_globals := %s; s_legacy_extra := %s; s_node := %s; s_results := %s; s_resume := %s; s_ticket := %s; s_trigger := %s; s_webhook := %s |}",
+		variant, optContact(s.Contact, t.get("contact")), coqOptStr(s.FlowName), input, s.Parent.coq(t.get("parent")), s.Child.coq(t.get("child")),
+		f("run", "created_on"), f("run", "exited_on"), f("run", "flow"), f("run", "path"), f("run", "results"), f("run", "status"), f("run", "uuid"),
+		f("fields"), f("globals"), f("legacy_extra"), f("node"), f("results"), f("resume"), f("ticket"), f("trigger"), f("webhook"))
+	return fmt.Sprintf("CCtx {| k_env := %s;\n  k_session := %s;\n  k_obs := %s;\n  k_country := %s |}",
+		coqEnv(s.Redact, s.BaseCountry), sess, xvRoot(t), coqStr(s.Country))
+}
+
+// ---- emitter --------------------------------------------------------------------------------------
+
+const casesPerFile = 150
+
 type emitter struct {
-	o   *hx.Opts
-	res *hx.Result
+	o     *hx.Opts
+	res   *hx.Result
+	file  *hx.CoqFile
+	names []string
+	shard int
 }
 
 func newEmitter(o *hx.Opts, res *hx.Result) *emitter { return &emitter{o: o, res: res} }
 
-func (e *emitter) addContext(sc *scenario, ob *observation, side int, redact bool, point int) {}
-func (e *emitter) flush()                                                                   {}
+func (e *emitter) open() {
+	if e.file != nil {
+		return
+	}
+	name := fmt.Sprintf("cases_C19_%d_%d.v", e.o.Seed, e.shard)
+	var sb strings.Builder
+	sb.WriteString("From Coq Require Import List String Ascii ZArith NArith Bool.\nFrom Verif Require Import model.Redact model.RedactCorr.\nImport ListNotations.\nOpen Scope string_scope.\n")
+	fmt.Fprintf(&sb, "Definition schemes : list string := %s.\n", coqStrs(allSchemes()))
+	for i, v := range chanVariants {
+		fmt.Fprintf(&sb, "Definition chans%d : list channel := %s.\n", i, hx.List(v.chans, func(c chanDef) string { return c.coq() }))
+	}
+	e.file = hx.NewCoqFile(name, sb.String())
+	e.names = nil
+}
+
+func (e *emitter) add(term string, input any, impl any) {
+	e.open()
+	nm := fmt.Sprintf("c%d", len(e.names))
+	e.file.Add(fmt.Sprintf("Definition %s : case := %s.", nm, term))
+	e.res.Cases = append(e.res.Cases, hx.Case{File: e.file.Name, Index: len(e.names), Input: input, Impl: impl})
+	e.names = append(e.names, nm)
+	if len(e.names) >= casesPerFile {
+		e.flush()
+	}
+}
+
+func (e *emitter) flush() {
+	if e.file == nil || len(e.names) == 0 {
+		return
+	}
+	e.file.Add("Definition cases : list case := [" + strings.Join(e.names, "; ") + "].")
+	e.file.Add("Definition M := Eval vm_compute in mismatches cases.\nPrint M.")
+	e.file.Save(e.o, e.res)
+	e.file = nil
+	e.shard++
+}
+
+// addContext emits one case per run of the session at this observation point
+func (e *emitter) addContext(sc *scenario, ob *observation, side int, redact bool, point int) {
+	for i, s := range ob.Snaps {
+		if s == nil || s.Tree == nil || s.Tree.Kind != "object" {
+			continue
+		}
+		e.add(s.coq(sc.ChanVariant), map[string]any{"kind": "context", "scenario": sc, "side": side, "redact": redact, "point": ob.Point, "run": i},
+			map[string]any{"country": s.Country})
+		e.res.Dist("corr=context")
+	}
+}
